@@ -26,7 +26,7 @@ fn main() {
         "fix" => gen::fix(&a.str_or("ops", "cases.ops"), &a.str_or("out", "fixed.ops")),
         "run" => {
             let rt = tokio::runtime::Builder::new_multi_thread()
-                .worker_threads(2)
+                .worker_threads(4)
                 .enable_all()
                 .build()
                 .unwrap();
